@@ -14,7 +14,7 @@ C(app, code, short) == [app |-> app, code |-> code, short |-> short]
 P(id, type) == [id |-> id, type |-> type]
 Files == <<
   [apps |-> <<P(0, "")>>, avps |-> <<A(0, 5001, "X-A", 0, "Unsigned32"), A(0, 5002, "X-B", 10, "OctetString")>>, cmds |-> <<C(0, 600, "XA")>>],
-  [apps |-> <<P(4, "auth")>>, avps |-> <<A(4, 5001, "X-A", 0, "UTF8String"), A(4, 5002, "X-B", 20, "Unsigned32")>>, cmds |-> <<>>],
+  [apps |-> <<P(4, "auth")>>, avps |-> <<A(4, 5001, "X-A", 0, "UTF8String"), A(4, 5002, "X-B", 20, "Unsigned32")>>, cmds |-> <<C(4, 600, "XZ")>>],
   [apps |-> <<P(16777251, "auth")>>, avps |-> <<A(16777251, 5001, "X-C", 10, "Time")>>, cmds |-> <<C(16777251, 601, "XB")>>],
   [apps |-> <<P(0, ""), P(77, "acct")>>, avps |-> <<A(0, 5001, "X-A", 0, "OctetString"), A(77, 5002, "X-B", 0, "Address")>>, cmds |-> <<>>],
   [apps |-> <<P(4, "acct"), P(1, "auth")>>, avps |-> <<A(4, 5003, "X-D", 0, "Unsigned32"), A(1, 5002, "X-B", 10, "Float32")>>, cmds |-> <<C(1, 602, "XC")>>],
@@ -22,7 +22,10 @@ Files == <<
   \* vendor, another type), and the same code under a second vendor
   [apps |-> <<P(0, "")>>, avps |-> <<A(0, 5002, "X-B", 10, "Unsigned64"), A(0, 5002, "X-E", 20, "Integer32")>>, cmds |-> <<>>],
   \* application 1 alone (its child 4 may not be loaded: S6a -> 4 -> 1 must still reach it)
-  [apps |-> <<P(1, "auth")>>, avps |-> <<A(1, 5004, "X-D", 0, "Unsigned32")>>, cmds |-> <<>>] >>
+  [apps |-> <<P(1, "auth")>>, avps |-> <<A(1, 5004, "X-D", 0, "Unsigned32")>>, cmds |-> <<>>],
+  \* a renaming dictionary: base code 5001 / vendor 0 (X-A) and application 4's code 5002 / vendor 20 (X-B) under
+  \* new names: the code now resolves to the new definition, the old names keep resolving
+  [apps |-> <<P(0, ""), P(4, "auth")>>, avps |-> <<A(0, 5001, "X-R", 0, "Unsigned32"), A(4, 5002, "X-S", 20, "Unsigned32")>>, cmds |-> <<>>] >>
 Defs(ld) == FlattenSeq([i \in 1..Len(ld) |-> Files[ld[i]].avps])
 Cmds(ld) == FlattenSeq([i \in 1..Len(ld) |-> Files[ld[i]].cmds])
 Apps(ld) == FlattenSeq([i \in 1..Len(ld) |-> Files[ld[i]].apps])
